@@ -6,6 +6,7 @@
 import AnyVecModel.Proofs.Vec
 import AnyVecModel.Proofs.KernelCap
 import AnyVecModel.Proofs.KernelDelegCap
+import AnyVecModel.Props.Refine
 namespace AnyVec
 namespace C10
 
@@ -273,6 +274,29 @@ theorem capacity_delegations_are_the_source (len : Nat) (index : Nat) (known : B
     Gen.Kernel.mem_expand_exact_default_trace known = [.call "size" [], .call "resize" []] ∧
     Gen.Kernel.heap_build_with_size_trace len index = [.call "build" [], .call "resize" [index]] :=
   KernelTie.deleg_capacity_tie len index known
+
+/-! ### the capacity rules over whole histories (Props/Refine.lean) -/
+
+/-- **`reserve(n)` keeps its promise in every reachable situation**: from any world related to an abstract vector
+(any fault-free reachable world is), `reserve(n)` either is refused - then `capacity < len + n` held and nothing
+changed - or the following `n` pushes are all accepted without the capacity moving: the world then shows the old items
+followed by the `n` new ones. -/
+theorem reserve_then_pushes (cfg : Cfg) (v ty n : Nat) (w : World) (s : Refine.Spec) (h : Refine.Rel v ty w s) :
+    ∃ s1, Refine.Rel v ty (World.step cfg (.reserve v n) w).1 s1 ∧ s1.items = s.items ∧
+      ((s1 = s ∧ s.cap < s.items.length + n) ∨
+       ∃ s', Refine.Rel v ty (Refine.runOps cfg v ty (World.step cfg (.reserve v n) w).1 (List.replicate n .push)) s' ∧
+         s'.items = s.items ++ List.range' s.next n ∧ s'.cap = s1.cap) :=
+  Refine.reserve_then_pushes cfg v ty n w s h
+
+/-- **capacity requests over any history**: every sequence of element and capacity operations refines the abstract
+vector with its capacity (`Refine.Spec.Step`): `reserve(n)` ends with `len + n ≤ capacity` or is refused,
+`reserve_exact(n)` grows to exactly `len + n`, `shrink_to_fit` ends at `len`, `shrink_to(m)` at
+`min(capacity, max(len, m))`, none of them touches the items, and element operations change the capacity only by
+growing a full vector. -/
+theorem capacity_history_refines (cfg : Cfg) (v ty : Nat) (ops : List Refine.VOp) (w : World) (s : Refine.Spec)
+    (h : Refine.Rel v ty w s) (hall : ∀ op ∈ ops, op.Allowed s.fixed) :
+    ∃ s', Refine.Spec.Steps s ops s' ∧ Refine.Rel v ty (Refine.runOps cfg v ty w ops) s' :=
+  Refine.history_refines cfg v ty ops w s h hall
 
 end C10
 end AnyVec
